@@ -45,6 +45,10 @@ def parse_kani_output(out):
     m = re.search(r"VERIFICATION:- (SUCCESSFUL|FAILED)", out)
     if m:
         res["status"] = m.group(1)
+    if re.search(r"CBMC failed with status|CBMC crashed|internal error|Invariant check failed", out) and not re.search(r"Failed Checks:", out):
+        # a tool crash is not a verdict
+        res["status"] = "UNKNOWN"
+        res["tool_crash"] = True
     for fm in re.finditer(r"Failed Checks: (.*)\n\s*File: \"([^\"]*)\", line (\d+), in (\S+)", out):
         res["failed"].append(dict(description=fm.group(1).strip(), file=fm.group(2), line=int(fm.group(3)), function=fm.group(4)))
     cm = re.search(r"\*\* (\d+) of (\d+) cover properties satisfied", out)
